@@ -39,6 +39,7 @@ impl Cfg {
             "cycle3" => "cycle3",
             "mutual-deep" => "mutual-deep",
             "static" => "static",
+            "static-stream" => "static-stream",
             "fanout" => "fanout",
             "sender-dropped" => "sender-dropped",
             _ => "none",
@@ -126,6 +127,30 @@ fn observer() {
             }
         }
     });
+}
+
+/// In `enhance_hot_reloading` mode every reload of this asset publishes one more change of its
+/// own file: notifications never stop coming, one at a time, each produced while the previous
+/// one is being handled (on the reloader thread).
+struct Echo;
+static ECHO_MEM: Mutex<Option<Mem>> = Mutex::new(None);
+static ECHO_ON: AtomicBool = AtomicBool::new(false);
+
+impl assets_manager::Compound for Echo {
+    fn load(cache: assets_manager::AnyCache, id: &assets_manager::SharedString) -> Result<Self, assets_manager::BoxedError> {
+        {
+            use assets_manager::source::Source;
+            let src = cache.raw_source();
+            src.read(id, "a")?;
+        }
+        if ECHO_ON.load(SeqCst) {
+            if let Some(m) = &*ECHO_MEM.lock().unwrap() {
+                m.notify_file(id, "a");
+            }
+            HANDLED.fetch_add(1, SeqCst);
+        }
+        Ok(Echo)
+    }
 }
 
 fn leaf_content(i: usize, g: u64) -> String {
@@ -231,7 +256,7 @@ fn child(args: &Args, mut rep: Report, cfg: &Cfg) -> Report {
     // "static": the documented combination enhance_hot_reloading() + hot_reload()
     // (the latter has no effect any more, but it must return)
     let owned;
-    let cache: &AssetCache<Mem> = if cfg.shape == "static" {
+    let cache: &AssetCache<Mem> = if cfg.shape == "static" || cfg.shape == "static-stream" {
         let leaked: &'static AssetCache<Mem> = Box::leak(Box::new(AssetCache::with_source(mem.clone())));
         leaked.enhance_hot_reloading();
         leaked
@@ -245,7 +270,14 @@ fn child(args: &Args, mut rep: Report, cfg: &Cfg) -> Report {
     } else {
         vec![]
     };
-    if cfg.shape != "none" && cfg.shape != "static" {
+    if cfg.shape == "static-stream" {
+        mem.write("echo", "a", b"e");
+        let _ = cache.load::<Echo>("echo");
+        *ECHO_MEM.lock().unwrap() = Some(mem.clone());
+        ECHO_ON.store(true, SeqCst);
+        mem.notify_file("echo", "a");
+    }
+    if cfg.shape != "none" && cfg.shape != "static" && cfg.shape != "static-stream" {
         for id in ["m.a", "m.b", "m.c", "m.d", "m.a", "m.b"] {
             if mem.get(id, "n0").is_some() {
                 let _ = cache.load::<Node<0>>(id);
@@ -296,7 +328,7 @@ fn child(args: &Args, mut rep: Report, cfg: &Cfg) -> Report {
                         mem.notify_file(&format!("fan.n{i}"), "n0");
                         fan_want = Some(n);
                     }
-                    if shape != "none" && shape != "static" && shape != "fanout" && g % 3 == 0 {
+                    if shape != "none" && shape != "static" && shape != "static-stream" && shape != "fanout" && g % 3 == 0 {
                         // touch the cyclic part of the graph too
                         mem.write("shared.s0", "a", format!("shared0-{i}-{g}").as_bytes());
                         mem.notify_file("shared.s0", "a");
@@ -396,6 +428,7 @@ fn child(args: &Args, mut rep: Report, cfg: &Cfg) -> Report {
             }
         }
         done.store(true, SeqCst);
+        ECHO_ON.store(false, SeqCst);
         for e in errs {
             if e.contains("watchdog") {
                 rep.inconclusive(&e);
@@ -445,6 +478,7 @@ pub fn configs(args: &Args) -> Vec<Cfg> {
     }
     v.push(Cfg { callers: 1, loaders: 0, bursts: false, calls: (n(300, 3000) as f64 * args.scale) as usize + 10, shape: "static" });
     v.push(Cfg { callers: 4, loaders: 2, bursts: true, calls: (n(300, 3000) as f64 * args.scale) as usize + 10, shape: "static" });
+    v.push(Cfg { callers: 2, loaders: 0, bursts: false, calls: (n(300, 3000) as f64 * args.scale) as usize + 10, shape: "static-stream" });
     v.push(Cfg { callers: 1, loaders: 0, bursts: false, calls: (n(120, 1200) as f64 * args.scale) as usize + 8, shape: "fanout" });
     v.push(Cfg { callers: 3, loaders: 2, bursts: true, calls: (n(120, 1200) as f64 * args.scale) as usize + 8, shape: "fanout" });
     // here `calls` is the number of caches created; 40 calls per caller and cache
